@@ -28,6 +28,8 @@ pub fn run(pid: &str, tier: &str, seed: u64) {
   match pid {
     "C01" => crate::o_star::c01(tier, seed),
     "C02" => crate::o_star::c02(tier, seed),
+    "C03" => crate::o_star::c03(tier, seed),
+    "C04" => crate::o_star::c04(tier, seed),
     "C05" => crate::o_star::c05(tier, seed),
     "C10" => crate::o_ggm::c10(tier, seed),
     "C11" => crate::o_ggm::c11(tier, seed),
